@@ -60,6 +60,8 @@ THEOREMS = [
     "AiuVerif.C11.ratios",
     "AiuVerif.C11.ideal_cycles_exact",
     "AiuVerif.C11.no_stats_zero_counter",
+    "AiuVerif.C11.pt_active_tiny_dur",
+    "AiuVerif.C11.csv_rows_are_rank_tables",
 ]
 RULE = ("e2e cases: (a) exhaustive grid: every combination of 6 log-row variants for kernel A x 6 for kernel B "
         "(absent, zero cycles, cycles with category X, cycles with category Y, -NA, ignored row) x every sequence of "
@@ -511,11 +513,11 @@ def gen_cases(ctx: Ctx):
     def in_domain(c):
         # a table without kernel rows / with only zero entries crashes the run (candidate defect CLS_EMPTY)
         return empty_ok or not degenerate(c["log"]) or not any(c["ranks"])
-    for j, c in enumerate(gen_grid(ctx)):
-        # quick: a fixed third of the grid per seed; thorough: all of it
-        if (not ctx.quick() or j % 3 == ctx.seed % 3) and in_domain(c):
+    for c in gen_grid(ctx):
+        if in_domain(c):
             yield c
-    for i in range(ctx.n(500, 6000)):
+    ctx.extra["exhaustive_grid"] = True
+    for i in range(ctx.n(800, 8000)):
         c = rand_case(ctx, i)
         if in_domain(c):
             yield c
